@@ -581,6 +581,7 @@ func (e *Engine) RunPath(fn *ssa.Function, prefix []int) (res PathResult) {
 	for k, v := range e.initHost {
 		e.hostState[k] = v
 	}
+	e.envForPath()
 	e.oblig = map[string][2]int64{}
 	e.summarise = nil
 	e.mergedDepth = 0
